@@ -26,6 +26,7 @@ type treeScenario struct {
 }
 
 func runTree(o *opts) {
+	fileModes = true
 	r := newRng(o.seed)
 	s := newSummary("tree", o.seed, o.tier)
 	n := 36
